@@ -35,26 +35,40 @@ def cmd_verify(ids):
     finally:
         sh("git -C /repo worktree remove --force %s; git -C /repo worktree prune; rm -rf %s" % (wt, tgt))
 def cmd_run(id, props):
+    """runs inside a private mount namespace with overlays over /repo and /verif: the patch is applied to the
+    overlay copy of /repo, the checks run from the overlay copy of /verif, nothing outside is modified"""
     p, m = meta(id)
     props = props or [m.get("property") or id.split("-")[0]]
-    st = sh("git -C /repo status --porcelain").stdout.strip()
-    if st: print("refusing: /repo working tree is not clean:\n" + st); return 2
-    a = sh("git -C /repo apply %s/%s/patch.diff" % (SEED, id))
-    if a.returncode != 0: print("patch does not apply", a.stdout); return 2
+    tmp = "/tmp/sv_%s" % id
+    sh("rm -rf %s" % tmp)
+    for d in ("vu", "vw", "ru", "rw", "out"): os.makedirs(os.path.join(tmp, d))
+    script = """set -e
+mount -t overlay overlay -o lowerdir=/verif,upperdir={t}/vu,workdir={t}/vw /verif
+mount -t overlay overlay -o lowerdir=/repo,upperdir={t}/ru,workdir={t}/rw /repo
+cd /repo && git checkout -q -- . && git apply {seed}/{id}/patch.diff
+cd /verif
+set +e
+for pr in {props}; do
+  s=$(date +%s); ./check $pr quick > {t}/out/$pr.log 2>&1; echo "rc=$? t=$(( $(date +%s) - s ))" >> {t}/out/$pr.log
+  for f in $(grep '^VIOLATION' {t}/out/$pr.log | sed 's/.*replay=//; s/ .*//' | head -3); do cp $f {t}/out/ 2>/dev/null; done
+done
+""".format(t=tmp, seed=SEED, id=id, props=" ".join(props))
+    open(tmp + "/run.sh", "w").write(script)
+    r = sh("unshare --mount bash %s/run.sh" % tmp)
+    if r.returncode != 0: print("namespace run failed:", r.stdout[-1500:])
     out = {}
-    try:
-        for pr in props:
-            t = time.time()
-            r = sh("cd /verif && ./check %s quick" % pr)
-            v = [l for l in r.stdout.splitlines() if l.startswith("VIOLATION")]
-            out[pr] = {"exit": r.returncode, "violations": v[:6], "seconds": int(time.time() - t)}
-            for k, l in enumerate(v[:3]):
-                rp = l.split("replay=")[1].split()[0]
-                if os.path.exists(rp): shutil.copy(rp, os.path.join(SEED, id, "replay-%s-%d.json" % (pr, k)))
-            print(id, pr, "exit=%d" % r.returncode, v[:2])
-    finally:
-        sh("git -C /repo checkout -- .")
+    for pr in props:
+        lp = "%s/out/%s.log" % (tmp, pr)
+        if not os.path.exists(lp): continue
+        lines = open(lp).read().splitlines()
+        v = [l for l in lines if l.startswith("VIOLATION")]
+        rc = [l for l in lines if l.startswith("rc=")]
+        out[pr] = {"exit": int(rc[-1].split()[0][3:]) if rc else None, "seconds": int(rc[-1].split()[1][2:]) if rc else None, "violations": v[:6]}
+        print(id, pr, out[pr]["exit"], v[:2])
+    for f in os.listdir(tmp + "/out"):
+        if f.endswith(".json"): shutil.copy(os.path.join(tmp, "out", f), os.path.join(SEED, id, "replay-" + f))
     m.setdefault("detected_by", {}).update(out); json.dump(m, open(p, "w"), indent=1)
+    sh("rm -rf %s" % tmp)
     return 0
 if __name__ == "__main__":
     c = sys.argv[1]
